@@ -133,7 +133,7 @@ def engine_side(definition=None, poison=None, poison_for_started=False, inp=None
     # the broker's view: the poison delivery was acknowledged (not judged while a machine still loops)
     drained = looping or w.broker.total_unacked() == 0
     out = {"run": {"stored": stored, "started": bool(mn) and not looping, "terminal": bool(mn) and mn[-1] in ("SUCCEEDED", "FAILED"),
-                   "status": mn[-1] if mn else "", "illegal": illegal, "error": (mrec or {}).get("error") or ""},
+                   "status": mn[-1] if mn else "", "illegal": illegal, "error": (mrec or {}).get("error") or "", "looping": bool(looping)},
            "healthy": h_ok, "drained": drained, "escaped": escaped}
     w.close()
     return out
